@@ -71,7 +71,7 @@ class SGD(Optimizer):
                     if self.momentum_buffer[i] is not None:
                         self.momentum_buffer[i] = self.momentum*self.momentum_buffer[i] + (1.0 - self.dampening)*grad
                     else:
-                        self.momentum_buffer[i] = grad
+                        self.momentum_buffer[i] = grad.copy()
                 
                     # Nesterov
                     if self.nesterov:
